@@ -53,9 +53,16 @@ def wire_of(replies, esc_false=False):
     io = IO(sock, ('peer', 0))
     sent = []
     for code, text in replies:
-        r = Reply(code, text)
-        if esc_false:
+        if esc_false == 'before':
+            # the order the server uses for its greeting replies: enhanced status codes switched off first, the text
+            # assigned afterwards (by a handler); the peer reads it with an ordinary Reply
+            r = Reply(code)
             r.enhanced_status_code = False
+            r.message = text
+        else:
+            r = Reply(code, text)
+            if esc_false:
+                r.enhanced_status_code = False
         r.send(io)
         sent.append((r.code, r.message, r.enhanced_status_code))
     io.flush_send()
@@ -69,7 +76,7 @@ def make_body(k, esc_false=False):
         try:
             for _ in range(k):
                 r = Reply()
-                if esc_false:
+                if esc_false is True:
                     r.enhanced_status_code = False
                 r.recv(io)
                 got.append((r.code, r.message, r.enhanced_status_code))
@@ -137,6 +144,17 @@ def check_roundtrip(replies, k, res, esc_false=False):
         got = next(iter(outs))
         gnorm = (tuple((g[0], norm(g[1]) if g[1] is not None else g[1]) if isinstance(g, tuple) else g
                        for g in got[0]), got[1])
+        if esc_false == 'before':
+            # writer without, reader with enhanced status codes: the reader supplies the default code for a text that has none
+            fixed = []
+            for g, (sc, sm, se) in zip(gnorm[0], sent[:k]):
+                if isinstance(g, tuple) and g[1] is not None and not re.match(r'^[245]\.\d{1,3}\.\d{1,3}\s', sm or '') \
+                        and g[1].startswith(g[0][0] + '.0.0 '):
+                    g = (g[0], g[1][6:])
+                elif isinstance(g, tuple) and g[1] == g[0][0] + '.0.0' and not sm:
+                    g = (g[0], '')
+                fixed.append(g)
+            gnorm = (tuple(fixed), gnorm[1])
         if gnorm != expected:
             if gnorm[0] != expected[0]:
                 kind = 'parsed-differs'
@@ -331,7 +349,7 @@ def run_config(cfg, tier, seed):
     if part == 'A':
         for code in range(cfg['lo'], cfg['hi']):
             for t in TEXTS_A:
-                for esc_false in ((False, True) if t in ('ok', '2.1.0 esc', '\ufeffbom first') else (False,)):
+                for esc_false in ((False, True, 'before') if t in ('ok', '2.1.0 esc', '\ufeffbom first') else (False, 'before')):
                     for v in check_roundtrip([(str(code), t)], 1, res, esc_false):
                         res.violation(*v)
                 res.interesting((code, t))
